@@ -1,4 +1,4 @@
-CONSTANTS ExportMode = TRUE  Rollups = {1, 2, 3}  Absent = 9  MaxActs = 4  Payloads = {1, 2}
+CONSTANTS ExportMode = TRUE  Rollups = {1, 2, 3}  Absent = 9  MaxActs = 3  Payloads = {1, 2}
 INIT Init
 NEXT Next
 INVARIANTS ExportBlock
